@@ -7,6 +7,7 @@ import (
 	"sync"
 	"time"
 
+	"hop.computer/hop/certs"
 	"hop.computer/hop/config"
 
 	"hop.computer/hop/hopserver"
@@ -245,6 +246,37 @@ func realTransportConfig(o SrvOpt) (transport.ServerConfig, bool) {
 		}
 	}
 	return transport.ServerConfig{}, false
+}
+
+// RealVhostLookup returns the certificate lookup that a REAL hop server (hopserver.NewHopServer) performs for a
+// list of virtual hosts, one per pattern, each with its own certificate: name -> 1-based index of the virtual
+// host whose certificate is presented, 0 if the server has none for that name.  The closure is the server's own
+// (state it may carry from one lookup to the next included).
+func RealVhostLookup(ids []*Ident, patterns []string) (func(name string) int, bool) {
+	if len(ids) < len(patterns) || len(patterns) == 0 {
+		return nil, false
+	}
+	o := SrvOpt{Ident: ids[0], Extra: ids[1:len(patterns)], Patterns: patterns}
+	real, ok := realTransportConfig(o)
+	if !ok {
+		return nil, false
+	}
+	raws := make([][]byte, len(patterns))
+	for i := range patterns {
+		raws[i], _ = ids[i].Leaf.Marshal()
+	}
+	return func(name string) int {
+		c, err := real.GetCertificate(transport.ClientHandshakeInfo{ServerName: certs.DNSName(name)})
+		if err != nil || c == nil {
+			return 0
+		}
+		for i, r := range raws {
+			if string(r) == string(c.RawLeaf) {
+				return i + 1
+			}
+		}
+		return -1
+	}, true
 }
 
 func modelVhostCallbacks(o SrvOpt) (func(transport.ClientHandshakeInfo) (*transport.Certificate, error), func() ([]*transport.Certificate, error)) {
